@@ -42,3 +42,28 @@ claim("C15",
       "Gram abstraction; deterministic gradf/prox; definiteness of the norm imposed by substitution; SDMM/GerchbergSaxton tol clauses not decided; "
       "canonical loops additionally probed natively (bounded).",
       "contract-based deductive verification (loop invariant + frame obligations + scenario contracts on the real method bodies; z3) with a static AST frame scan")
+
+claim("C01",
+      "For every Linop class (38 classes, ~200 parameter variants with symbolic extents/shifts/strides/scalars) the real __init__, _apply and "
+      "_adjoint_linop are executed symbolically and the adjoint identity is proved coefficient-wise: coef of x[t] in (Ax)[k] equals the "
+      "conjugate of coef of y[k] in (A^H y)[t]; shapes swapped; A.H.H acts like A. Structural classes over arbitrary operands (structural induction).",
+      "Array functions enter through their contracts (index maps of C09 specs; abstract kernels keyed by every parameter for fft/nufft/interp/conv/wavelet, "
+      "whose own adjointness is C05-C10); rank <= 3, operands <= 3; floats as reals.",
+      "contract-based deductive verification (symbolic execution of the real classes on linear-form arrays, one-point rule, z3)")
+claim("C02",
+      "Frame obligations (no public array function, Linop._apply or Prox._prox modifies an argument or an array of self; _apply/_prox store no state; "
+      "H/N cache only adj/normal) decided by a static effect/alias analysis of the real AST; C-linearity of every Linop class proved as "
+      "'output is a homogeneous linear form without conjugated input atoms and independent of uninitialised memory'.",
+      "numpy view/copy table assumed; callee contracts as in C01; bounded run-time frame probe on sample calls.",
+      "contract-based deductive verification (frame clauses by static effect/alias analysis; linear-form obligations by symbolic execution + z3)")
+claim("C03",
+      "Overloads and Compose/Add/Hstack/Vstack/Diag are proved to act as the matrix expression of their (arbitrary) operands; _hstack_params/_vstack_params "
+      "proved for symbolic axis in [-ndim, ndim): shape, prefix-sum split indices, raise iff incompatible; every class's _apply output has the advertised shape; "
+      "Compose/Add/apply reject exactly the operands that do not fit.",
+      "rank <= 2 for stacking (<= 3 otherwise), operands <= 3; Diag on flattened rank-2 operands only bounded; numpy contracts of pyvc/snp.py.",
+      "contract-based deductive verification (symbolic execution of the real classes, z3)")
+claim("C04",
+      "Every _normal_linop (default H*A and every override) is compared coefficient-wise with A^H(A x) for all classes/variants of C01 except FFT/IFFT "
+      "(unitarity of numpy's FFT is assumed, bounded probe) and the Toeplitz NUFFT (accuracy clause, bounded probe with tolerance).",
+      "As C01; Toeplitz-embedded NUFFT normal operator and FFT unitarity are not decided deductively.",
+      "contract-based deductive verification (symbolic execution, linear forms, z3)")
